@@ -322,3 +322,151 @@ Lemma wc_rebatch nt b bs b' bs' :
   cmp wc_metric nt (fold_left (upd wc_metric nt) (b :: bs) (init wc_metric nt)) =
   cmp wc_metric nt (fold_left (upd wc_metric nt) (b' :: bs') (init wc_metric nt)).
 Proof. intros H H' He. rewrite (wc_class_fn nt b bs H), (wc_class_fn nt b' bs' H'), He. reflexivity. Qed.
+
+(* ==========================================================================================
+   3. retrieval classes, C01 positive part: state after ANY merge tree
+   ========================================================================================== *)
+Lemma topk_app_cong K A A' B B' : topk K A = topk K A' -> topk K B = topk K B' -> topk K (A ++ B) = topk K (A' ++ B').
+Proof.
+  intros HA HB. rewrite <- (topk_retention K A B), <- (topk_retention_r K (topk K A) B), HA, HB.
+  rewrite topk_retention_r, topk_retention. reflexivity.
+Qed.
+Lemma rupd1_topk_gen c i b si : topk (r_k c) (rupd1 c i b si) = topk (r_k c) (si ++ rsel_items c i b).
+Proof.
+  unfold rupd1, rsel_items. destruct (rsel (r_nq c) i b) as [its|]; [apply topk_idem|rewrite app_nil_r; reflexivity].
+Qed.
+Lemma rupd1_incl c i b si : incl (rupd1 c i b si) (si ++ rsel_items c i b).
+Proof.
+  unfold rupd1, rsel_items. destruct (rsel (r_nq c) i b) as [its|].
+  - intros x Hx. eapply in_topk. exact Hx.
+  - rewrite app_nil_r. apply incl_refl.
+Qed.
+Lemma rupd_fold_topk c i : forall bs s D, i < List.length s -> topk (r_k c) (nth i s []) = topk (r_k c) D ->
+  topk (r_k c) (nth i (fold_left (rupd c) bs s) []) = topk (r_k c) (D ++ rdata c i bs).
+Proof.
+  induction bs as [|b bs IH]; intros s D Hi Hs; cbn [fold_left].
+  - cbn. rewrite app_nil_r. exact Hs.
+  - rewrite rdata_cons, app_assoc. apply IH; [rewrite rupd_length; exact Hi|].
+    rewrite rupd_nth by exact Hi. rewrite rupd1_topk_gen. apply topk_app_cong; [exact Hs|reflexivity].
+Qed.
+Lemma rupd_fold_incl c i : forall bs s D, i < List.length s -> incl (nth i s []) D ->
+  incl (nth i (fold_left (rupd c) bs s) []) (D ++ rdata c i bs).
+Proof.
+  induction bs as [|b bs IH]; intros s D Hi Hs; cbn [fold_left].
+  - cbn. rewrite app_nil_r. exact Hs.
+  - rewrite rdata_cons, app_assoc. apply IH; [rewrite rupd_length; exact Hi|].
+    rewrite rupd_nth by exact Hi. eapply incl_tran; [apply rupd1_incl|]. apply incl_app; [apply incl_appl, Hs|apply incl_appr, incl_refl].
+Qed.
+Lemma rdata_app c i a b : rdata c i (a ++ b) = rdata c i a ++ rdata c i b.
+Proof. unfold rdata. apply flat_map_app. Qed.
+
+Section RetrTree.
+Variable recall : bool.
+Variable c : rcfg.
+Notation M := (retr_metric recall).
+Definition tree_inv (t : mtree M) : Prop :=
+  List.length (run M c t) = r_nq c /\
+  forall i, i < r_nq c ->
+    topk (r_k c) (nth i (run M c t) []) = topk (r_k c) (rdata c i (stream M t)) /\
+    incl (nth i (run M c t) []) (rdata c i (stream M t)).
+
+Lemma sources_inv i : forall os : list (mtree M), Forall tree_inv os -> i < r_nq c ->
+  topk (r_k c) (flat_map (fun m : rstate => nth i m []) (map (run M c) os)) = topk (r_k c) (rdata c i (flat_map (stream M) os)) /\
+  incl (flat_map (fun m : rstate => nth i m []) (map (run M c) os)) (rdata c i (flat_map (stream M) os)).
+Proof.
+  induction 1 as [|o os Ho _ IH]; intros Hi; [split; [reflexivity|apply incl_refl]|].
+  cbn [map flat_map]. rewrite rdata_app. destruct (IH Hi) as [IH1 IH2]. destruct Ho as [_ Ho]. destruct (Ho i Hi) as [Ho1 Ho2].
+  split; [apply topk_app_cong; assumption|]. apply incl_app; [apply incl_appl, Ho2|apply incl_appr, IH2].
+Qed.
+
+Theorem retr_tree_state : forall t : mtree M, tree_inv t.
+Proof.
+  induction t as [bs|t os post IHt IHos] using mtree_ind'.
+  - split.
+    + change (List.length (fold_left (rupd c) bs (repeat [] (r_nq c))) = r_nq c). rewrite rupd_fold_length. apply repeat_length.
+    + intros i Hi. pose proof (retr_class_state recall c bs i Hi) as H. cbn [run stream]. rewrite H. split; [apply topk_idem|].
+      intros x Hx. eapply in_topk. exact Hx.
+  - destruct IHt as [Lt St]. unfold tree_inv.
+    change (run M c (Merge M t os post)) with (fold_left (rupd c) post (rmrg c (run M c t) (map (run M c) os))).
+    cbn [stream]. split.
+    + rewrite rupd_fold_length, rmrg_length. exact Lt.
+    + intros i Hi. destruct (St i Hi) as [St1 St2]. destruct (sources_inv i os IHos Hi) as [So1 So2].
+      rewrite !rdata_app, app_assoc.
+      assert (Hl : i < List.length (rmrg c (run M c t) (map (run M c) os))) by (rewrite rmrg_length, Lt; exact Hi).
+      split.
+      * apply rupd_fold_topk; [exact Hl|]. rewrite rmrg_nth by (rewrite Lt; exact Hi). apply topk_app_cong; assumption.
+      * apply rupd_fold_incl; [exact Hl|]. rewrite rmrg_nth by (rewrite Lt; exact Hi).
+        apply incl_app; [apply incl_appl, St2|apply incl_appr, So2].
+Qed.
+End RetrTree.
+
+(* ---- RetrievalPrecision with empty_target_action = "neg": compute() factors through the top-k ---- *)
+Definition labels01 (l : list item) : Prop := Forall (fun p => snd p = 0%Z \/ snd p = 1%Z) l.
+Lemma labels01_no1_sum l : labels01 l -> has1 l = false -> sumlab l = 0%Z.
+Proof.
+  induction 1 as [|p l Hp _ IH]; intros H; [reflexivity|]. unfold has1 in H. cbn [existsb] in H.
+  apply orb_false_iff in H as [H1 H2]. rewrite sumlab_cons, (IH H2). destruct Hp as [->|Hp]; [reflexivity|].
+  rewrite Hp in H1. discriminate H1.
+Qed.
+Lemma labels01_incl l l' : incl l l' -> labels01 l' -> labels01 l.
+Proof. unfold labels01. rewrite !Forall_forall. intros Hi H x Hx. apply H, Hi, Hx. Qed.
+Lemma zq_nonzero n : n <> 0 -> qeq (zq (Z.of_nat n)) 0 = false.
+Proof.
+  intros Hn. unfold qeq. destruct (Qc_eq_dec (zq (Z.of_nat n)) 0) as [E|]; [|reflexivity].
+  exfalso. apply (f_equal this) in E. unfold zq, mkq in E. cbn [this Q2Qc] in E.
+  assert (H : Qeq (Z.of_nat n # 1) 0).
+  { rewrite <- (Qred_correct (Z.of_nat n # 1)). rewrite E. reflexivity. }
+  unfold Qeq in H. cbn in H. lia.
+Qed.
+Lemma rquery_prec_neg_topk c s : r_act c = ANeg -> r_k c <> Some 0 -> labels01 s ->
+  rquery false c s = rquery false c (topk (r_k c) s).
+Proof.
+  intros Ha Hk Hl. unfold rquery. rewrite (topk_is_nil _ s Hk). destruct (is_nil s) eqn:En; [reflexivity|].
+  rewrite Ha. cbn [act_val].
+  destruct (has1 (topk (r_k c) s)) eqn:Ht.
+  - rewrite (has1_topk _ _ Ht). cbn [negb]. f_equal. unfold prec_fn. rewrite topk_idem, nb_retrieved_topk. reflexivity.
+  - cbn [negb]. destruct (has1 s) eqn:Hs; cbn [negb]; [|reflexivity]. f_equal. unfold prec_fn.
+    assert (Hsum : sumlab (topk (r_k c) s) = 0%Z).
+    { apply labels01_no1_sum; [|exact Ht]. apply (labels01_incl _ s); [|exact Hl]. intros x Hx. eapply in_topk. exact Hx. }
+    rewrite Hsum. unfold qdivx. rewrite zq_nonzero.
+    + f_equal. change (zq 0) with 0%Qc. unfold Qcdiv. ring.
+    + destruct s as [|x s]; [discriminate En|]. destruct (r_k c) as [[|k]|]; [congruence| |]; cbn [nb_retrieved List.length];
+        [destruct (r_lim c)|]; lia.
+Qed.
+
+(* RetrievalPrecision, "neg", any k / limit_k_to_size / num_queries / avg: after ANY merge tree compute()
+   is the closed form on the top-k of all data routed to each query *)
+Theorem rprec_neg_tree c (t : mtree (retr_metric false)) : r_act c = ANeg -> r_k c <> Some 0 ->
+  (forall i, i < r_nq c -> labels01 (rdata c i (stream (retr_metric false) t))) ->
+  cmp (retr_metric false) c (run (retr_metric false) c t) =
+  rfinish c (map (fun i => rquery false c (topk (r_k c) (rdata c i (stream (retr_metric false) t)))) (seq 0 (r_nq c))).
+Proof.
+  intros Ha Hk Hl. destruct (retr_tree_state false c t) as [Len St].
+  change (cmp (retr_metric false) c (run (retr_metric false) c t)) with (rcmp false c (run (retr_metric false) c t)).
+  unfold rcmp. f_equal. rewrite (list_as_nth [] (run (retr_metric false) c t)) at 1. rewrite map_map, Len.
+  apply map_ext_in. intros i Hi. apply in_seq in Hi. assert (Hi' : i < r_nq c) by lia. destruct (St i Hi') as [S1 S2].
+  rewrite (rquery_prec_neg_topk c _ Ha Hk (labels01_incl _ _ S2 (Hl i Hi'))). rewrite S1. reflexivity.
+Qed.
+Lemma rdata_perm c i bs bs' : Permutation bs bs' -> Permutation (rdata c i bs) (rdata c i bs').
+Proof. intros H. unfold rdata. apply Permutation_flat_map, H. Qed.
+Theorem rprec_neg_sharding c (t t' : mtree (retr_metric false)) : r_act c = ANeg -> r_k c <> Some 0 ->
+  (forall i, i < r_nq c -> labels01 (rdata c i (stream (retr_metric false) t))) ->
+  Permutation (stream (retr_metric false) t) (stream (retr_metric false) t') ->
+  cmp (retr_metric false) c (run (retr_metric false) c t) = cmp (retr_metric false) c (run (retr_metric false) c t').
+Proof.
+  intros Ha Hk Hl Hp. rewrite (rprec_neg_tree c t Ha Hk Hl), (rprec_neg_tree c t' Ha Hk).
+  - f_equal. apply map_ext. intros i. rewrite (topk_perm_inv _ _ _ (rdata_perm c i _ _ Hp)). reflexivity.
+  - intros i Hi. unfold labels01. eapply Permutation_Forall; [apply rdata_perm, Hp|apply Hl, Hi].
+Qed.
+
+(* witnesses for the remaining (class, option) combinations, k = 1 *)
+Lemma precision_merge_refuted_all a : a <> ANeg ->
+  let t := wit_tree false [b1 900 0] [b1 100 1] in
+  enc_rout (wit_cfg a) (cmp (retr_metric false) (wit_cfg a) (run (retr_metric false) (wit_cfg a) t)) <>
+  enc_rout (wit_cfg a) (cmp (retr_metric false) (wit_cfg a) (run (retr_metric false) (wit_cfg a) (Shard (retr_metric false) (stream (retr_metric false) t)))).
+Proof. intros Ha. destruct a; [congruence| | |]; vm_compute; discriminate. Qed.
+Lemma recall_merge_refuted_all a :
+  let t := wit_tree true [b1 900 1] [b1 100 1] in
+  enc_rout (wit_cfg a) (cmp (retr_metric true) (wit_cfg a) (run (retr_metric true) (wit_cfg a) t)) <>
+  enc_rout (wit_cfg a) (cmp (retr_metric true) (wit_cfg a) (run (retr_metric true) (wit_cfg a) (Shard (retr_metric true) (stream (retr_metric true) t)))).
+Proof. destruct a; vm_compute; discriminate. Qed.
